@@ -29,15 +29,33 @@ theorem reset_refines_table {s s' : State} {id code : Nat} {b : Bool} (h : s.res
 theorem stopped_refines_table (s : State) (id : Nat) : s.stopped id = expectedStopped (absSend s id) :=
   stopped_table s id
 
-/-- `write`: Blocked while the connection is closing; the peer's code on a writable half it stopped
-    (before the connection-level room is looked at); Blocked without connection-level room; a closed
-    stream after finish / reset / full acknowledgement; otherwise Blocked iff no stream credit, else
-    exactly `min(n, credit)` bytes -/
+/-- `write` on a live connection: the result is determined by the abstract state of the half
+    (`expectedWrite`, written from the property text): `Stopped(code)` on a half the peer stopped, a
+    closed stream after finish / reset / full acknowledgement — in both cases WHATEVER the
+    connection-level credit and send window are —, and on an open unstopped half `Blocked` iff there
+    is no room, else exactly `min(n, room)` bytes -/
 theorem write_refines_table {s s' : State} {id n : Nat} {r : Except WriteErr Nat}
-    (h : s.write id n = some (s', r)) :
-    r = expectedWrite s.connClosed (Gen.writeLimit s.maxData s.dataSent s.sendWindow s.unackedData)
-          (streamCredit s id) n (absSend s id) :=
-  write_table h
+    (h : s.write id n = some (s', r)) (hc : s.connClosed = false) :
+    r = expectedWrite
+          (Nat.min (Gen.writeLimit s.maxData s.dataSent s.sendWindow s.unackedData) (streamCredit s id))
+          n (absSend s id) :=
+  write_table h hc
+
+/-- after finish or reset (or once the half is gone) every write reports a closed stream, also with
+    the connection-level credit exhausted: it is never `Blocked`, which would park the writer for a
+    `Writable` event that cannot come -/
+theorem write_on_closed_half {s s' : State} {id n : Nat} {r : Except WriteErr Nat}
+    (h : s.write id n = some (s', r)) (hc : s.connClosed = false)
+    (ha : (∃ c, absSend s id = .dataSent c) ∨ (∃ c, absSend s id = .resetSent c) ∨ absSend s id = .gone) :
+    r = .error .closedStream := by
+  have := write_table h hc
+  rcases ha with ⟨c, ha⟩ | ⟨c, ha⟩ | ha <;> (rw [ha] at this; simpa [expectedWrite] using this)
+
+/-- while the connection is closing every write is `Blocked` and changes nothing (C11 speaks about
+    the halves of a live connection) -/
+theorem write_on_closing_connection {s s' : State} {id n : Nat} {r : Except WriteErr Nat}
+    (h : s.write id n = some (s', r)) (hc : s.connClosed = true) : r = .error .blocked ∧ s' = s :=
+  write_conn_closed h hc
 
 /-! ### receiving half -/
 
@@ -48,8 +66,8 @@ theorem write_refines_table {s s' : State} {id n : Nat} {r : Except WriteErr Nat
 theorem write_on_stopped_stream {s s' : State} {id n c : Nat} {r : Except WriteErr Nat}
     (h : s.write id n = some (s', r)) (hc : s.connClosed = false)
     (ha : absSend s id = .ready (some c)) : r = .error (.stopped c) := by
-  have := write_table h
-  rw [ha, hc] at this
+  have := write_table h hc
+  rw [ha] at this
   simpa [expectedWrite] using this
 
 /-- the same on the concrete half -/
@@ -153,5 +171,17 @@ def writeAfterStop : Option (State × Hist) :=
 example : (writeAfterStop.map fun r => r.2.reverse.map (·.2)) =
     some [.ok, .ok, .okNat 2, .okNat 100, .errWrite .blocked, .ok, .event (.stopped 2 7),
       .errWrite (.stopped 7), .ok, .none_, .none_, .errWrite (.stopped 7)] := by decide
+
+/-- the write-on-closed-half history (corpus/streams/write-on-closed-half.ops): connection credit 10
+    used up, stream 3 finished, stream 7 reset: writes on both report a closed stream at once, and
+    again after MAX_DATA reopened the connection; nothing is parked in `connection_blocked` -/
+def writeOnClosedHalf : Option (State × Hist) :=
+  runOps State.initial [] [.new ⟨.server, 2, 2, 1000, 1000, 1000⟩, .params ⟨100, 100, 100, 2, 2, 10⟩,
+    .open_ .uni, .open_ .uni, .write 3 10, .finish 3, .reset 7 5, .write 3 1, .write 7 1, .maxData 1000,
+    .poll, .write 3 1, .write 7 1]
+
+example : (writeOnClosedHalf.map fun r => (r.2.reverse.map (·.2), r.1.connectionBlocked)) =
+    some ([.ok, .ok, .okNat 3, .okNat 7, .okNat 10, .ok, .ok, .errWrite .closedStream,
+      .errWrite .closedStream, .ok, .none_, .errWrite .closedStream, .errWrite .closedStream], []) := by decide
 
 end QM.Props.C11
